@@ -95,21 +95,27 @@ def affinePreimage (G : GridGens) (v : Nat) (e : Vec) (b d : Rat) : GridGens :=
     -- x_v is forgotten: intersect with d x_v = ⟨e,x⟩ + b, then unconstrain x_v
     addLine (intersectCon G { a := vsub (vsmul d (unit v)) e, b := -b, f := 0 }) (unit v)
 
-/-- image of the relation `lhs(w) ≡_f rhs(v) ∧ wᵢ = vᵢ (lhsᵢ = 0)`; `n` = space dimension -/
-def relImage (n : Nat) (G : GridGens) (lhs : Vec) (lb : Rat) (rhs : Vec) (rb : Rat) (f : Rat) : GridGens :=
-  -- coordinate n := rhs(x)
-  let G1 := mapG (fun x => setCoord (padTo n x) n (dot rhs x)) (setCoord [] n rb) G
-  let G2 := addLines G1 (((List.range n).filter (fun i => lhs.getD i 0 ≠ 0)).map unit)
-  let G3 := intersectCon G2 { a := vsub (padTo n lhs) (unit n), b := lb, f := f }
+/-- the common core of the generalized affine image and preimage, for a grid of dimension `n`:
+    `{ y | ∃ v ∈ G, yᵢ = vᵢ (i ∉ S), ⟨c,y⟩ + c0 ≡_f ⟨α,v⟩ + a0 }` -/
+def relCore (n : Nat) (G : GridGens) (α : Vec) (a0 : Rat) (S : List Nat) (c : Vec) (c0 : Rat) (f : Rat) : GridGens :=
+  -- coordinate n := ⟨α,x⟩ + a0
+  let G1 := mapG (fun x => setCoord (padTo n x) n (dot α x)) (setCoord [] n a0) G
+  -- the coordinates in S become free
+  let G2 := addLines G1 (S.map unit)
+  -- ⟨c,x⟩ + c0 - x_n ≡ 0 (mod f)
+  let G3 := intersectCon G2 { a := vsub c (unit n), b := c0, f := f }
   mapG (padTo n) [] G3
+
+/-- the variables that occur in `lhs` -/
+def suppOf (n : Nat) (lhs : Vec) : List Nat := (List.range n).filter (fun i => lhs.getD i 0 ≠ 0)
+
+/-- image of the relation `lhs(w) + lb ≡_f rhs(v) + rb ∧ wᵢ = vᵢ (lhsᵢ = 0)`; `n` = space dimension -/
+def relImage (n : Nat) (G : GridGens) (lhs : Vec) (lb : Rat) (rhs : Vec) (rb : Rat) (f : Rat) : GridGens :=
+  relCore n G rhs rb (suppOf n lhs) lhs lb f
 
 /-- preimage of the same relation -/
 def relPreimage (n : Nat) (G : GridGens) (lhs : Vec) (lb : Rat) (rhs : Vec) (rb : Rat) (f : Rat) : GridGens :=
-  -- coordinate n := lhs(w)
-  let G1 := mapG (fun x => setCoord (padTo n x) n (dot lhs x)) (setCoord [] n lb) G
-  let G2 := addLines G1 (((List.range n).filter (fun i => lhs.getD i 0 ≠ 0)).map unit)
-  let G3 := intersectCon G2 { a := vsub (unit n) (padTo n rhs), b := -rb, f := f }
-  mapG (padTo n) [] G3
+  relCore n G lhs lb (suppOf n lhs) rhs rb f
 
 /-- least grid containing `{p + μ q | p ∈ G, q ∈ H, μ ∈ ℤ}` -/
 def timeElapse : GridGens → GridGens → GridGens
